@@ -3,6 +3,7 @@
   graph, every schedule.
 -/
 import Babylon.Anyflow.GraphStep
+import Babylon.Core.Reach
 
 namespace Babylon.Anyflow.Graph
 open Babylon.Core
@@ -33,7 +34,7 @@ theorem step_mono {e : Ev} (h : stepEvent p s e = some s') : s' = State.init ∨
   | envSeal d x =>
     obtain ⟨h1, _, _, h4 | h4⟩ := step_envSeal h
     · right; rw [h4.2]; exact mono_sealData h1
-    · right; rw [h4.2.2]; exact ⟨(mono_sealData h1).sealed, (mono_sealData h1).dact⟩
+    · right; rw [h4.2.2]; exact ⟨(mono_sealData (x := x) h1).sealed, (mono_sealData (x := x) h1).dact⟩
   | run => right; rw [(step_run h).2.2]; exact mono_of_eq rfl rfl rfl
   | bind =>
     obtain ⟨_, _, d, _, h4 | h4⟩ := step_bind h
@@ -261,10 +262,7 @@ theorem invV_step {e : Ev} (hi : InvV p s) (h : stepEvent p s e = some s') : Inv
       · intro u; rw [h4]; exact hi.dact_le u
       · intro u
         rw [h4]
-        show upd s.counted v (s.counted v + cnt) u ≤ resolvedCount p _ u
-        have hrc' : resolvedCount p { s with counted := upd s.counted v (s.counted v + cnt), wn := upd s.wn v (s.wn v - (cnt : Int)),
-            runnable := if s.wn v - (cnt : Int) = 0 then upd s.runnable v (s.runnable v + 1) else s.runnable } u = resolvedCount p s u := rfl
-        rw [hrc']
+        show upd s.counted v (s.counted v + cnt) u ≤ resolvedCount p s u
         by_cases hne : u = v
         · subst hne; simp only [upd_same]; exact h3
         · simp only [upd_other _ _ hne]; exact hi.counted_le u
